@@ -457,6 +457,51 @@ def run_c15(ctx: Ctx):
                         objs.append((cls(**kw), valid))
                     except Exception:  # noqa: BLE001
                         continue
+                # nested generated instances (struct values, case data) are entry points of their own
+                nested = []
+
+                def walk(v, depth=0):
+                    if depth > 6:
+                        return
+                    if genlib.is_generated_instance(v):
+                        if depth > 0:
+                            nested.append(v)
+                        for k in type(v).__annotations__:
+                            if k != "_byte_size":
+                                walk(getattr(v, k, None), depth + 1)
+                    elif isinstance(v, (tuple, list)):
+                        for x in v[:3]:
+                            walk(x, depth + 1)
+                for o, _ in objs:
+                    walk(o)
+                for sub in nested[:12]:
+                    scls = type(sub)
+                    sname = scls.__qualname__
+                    rs = genlib.render(sub)
+                    for san in (False, True):
+                        real = genlib.do_ser(scls, sub, san)
+                        n += 1
+                        ctx.sig(("ser-nested", san, classify(real), "." in sname))
+                        if not real.endswith(f"san {int(san)}"):
+                            fails(ctx, case, f"{sname}.serialize (nested class called directly) left the sanitisation mode changed "
+                                  f"(entry {san}): `{real[-40:]}`", {"class": sname, "object": rs, "san": san, "impl": real})
+                            return
+                        model = ctx.driver.ask1(f"gen ser {sname} {int(san)} {rs}")
+                        if model.split()[-1] != real.split()[-1] or classify(model) != classify(real):
+                            if disagree(ctx, case, f"{sname}.serialize (entry mode {san}): impl `{real[:100]}`, model `{model[:100]}`",
+                                        {"class": sname, "object": rs, "san": san}, "mode after execSer (nested class)", "C15"):
+                                return
+                        if real.startswith("ok"):
+                            data = bytes.fromhex(real.split()[1]) if real.split()[1] != "-" else b""
+                            for ch in (False, True):
+                                rd = genlib.do_de(scls, data, ch, timeout=0.5)
+                                n += 1
+                                if rd.startswith("err RuntimeError"):
+                                    continue   # a case body with <break> read outside chunked mode: not an entry point of the property
+                                if not rd.endswith(f"chunked {int(ch)}"):
+                                    fails(ctx, case, f"{sname}.deserialize (nested class called directly) left the chunked mode changed "
+                                          f"(entry {ch}): `{rd[-40:]}`", {"class": sname, "bytes": common.tohex(data), "chunked": ch, "impl": rd})
+                                    return
                 for obj, valid in objs:
                     ro = genlib.render(obj)
                     for san in (False, True):
@@ -680,13 +725,39 @@ def run_c19(ctx: Ctx):
                         return
                     if first.startswith("ok"):
                         data = bytes.fromhex(first.split()[1]) if first.split()[1] != "-" else b""
+                        buf = bytearray(data)      # a caller-owned, reusable receive buffer
                         try:
-                            back, _ = genlib.de_obj(cls, data, False, timeout=0.5)
+                            back, _ = genlib.de_obj(cls, buf, False, timeout=0.5)
                         except BaseException:  # noqa: BLE001 - incl. the time limit (hostile-looking lengths)
                             continue
-                        a, b = genlib.do_ser(cls, back, False), genlib.do_ser(cls, back, False)
-                        if a != b:
-                            fails(ctx, case, f"{cname}: serialising a deserialised instance twice differs", {"class": cname, "bytes": data.hex()})
+                        a = genlib.do_ser(cls, back, False)
+                        rb = genlib.render(back)
+                        for i in range(len(buf)):
+                            buf[i] ^= 0x55         # the caller reuses its buffer
+                        b = genlib.do_ser(cls, back, False)
+                        if a != b or genlib.render(back) != rb:
+                            fails(ctx, case, f"{cname}: a deserialised instance changed when the caller overwrote the buffer it was read from "
+                                  f"(`{a[:60]}` then `{b[:60]}`)", {"class": cname, "bytes": data.hex()})
+                            return
+                # every array argument once as an (initially empty, where the declaration allows) caller-owned list
+                kw = ci.random_kwargs(rng, valid=True)
+                for name, val in list(kw.items()):
+                    if not isinstance(val, tuple):
+                        continue
+                    for start in ([], list(val)):
+                        mine = list(start)
+                        try:
+                            obj = cls(**dict(kw, **{name: mine}))
+                        except Exception:  # noqa: BLE001
+                            continue
+                        first = genlib.do_ser(cls, obj, False)
+                        ro = genlib.render(obj)
+                        mine.extend(val[:1] or (0,))
+                        mine.reverse()
+                        n += 1
+                        if isinstance(getattr(obj, name), list) or genlib.do_ser(cls, obj, False) != first or genlib.render(obj) != ro:
+                            fails(ctx, case, f"{cname}.{name}: the instance follows later changes of the list it was built from "
+                                  f"(argument initially {start!r})", {"class": cname, "object": ro, "attribute": name})
                             return
         finally:
             close_case(case)
@@ -854,7 +925,7 @@ def run_c18(ctx: Ctx):
             seeds = ["0", "1", "random"] + (["2", "12345"] if ctx.thorough else [])
             for hs in seeds:
                 for ws in ["-", str(rng.randrange(10 ** 6))] + ([str(rng.randrange(10 ** 6))] if ctx.thorough else []):
-                    configs.append((hs, ws, rng.choice(["fresh,again", "fresh,same,again", "failfirst,again", "fresh,fresh"])))
+                    configs.append((hs, ws, rng.choice(["fresh,again", "fresh,same,again", "failfirst,again", "fresh,same", "fresh,same"])))
             scratch = tempfile.mkdtemp(prefix="c18-", dir="/var/tmp")
             try:
                 procs = []
